@@ -200,9 +200,10 @@ def regex_lattice(rng):
     import itertools
     out = []
     flags = ["-g", "-p", "-s", "-m", "-j"]
-    outs = [[], ["-r", "/"], ["--json"]]
+    # replacement texts: plain, and texts that themselves hold matches of the regex (they must be printed as they are)
+    outs = [[], ["-r", "/"], ["--json"], ["-r", ",,"], ["-r", ";"]]
     trims = [[], ["-t", "l"], ["-t", "r"], ["-t", "b"]]
-    shapes = ["2", "1:2", "2,1", "-1", "2:", ":2,4", "3=F", "-2:-1"]
+    shapes = ["2", "1:2", "2,1", "-1", "2:", ":2,4", "3=F", "-2:-1", "1:"]
     datas = [b"a,b;c,d;e\n", b",a,,b;;c,\n\nx\n;;\n", b"k;l\na,b,c,d,e,f,g\n", b"a;b"]
     for mask in range(1 << len(flags)):
         fs = [f for i, f in enumerate(flags) if mask >> i & 1]
@@ -862,6 +863,15 @@ def c12(rng, count, exhaustive_len=3):
             for ctx in (["-d", "-", "-f", sh_], ["-d", "-", "-f", sh_, "-M", "1"], ["-d", "--", "-f", sh_], ["-d", "-", "-f", sh_, "--json"] if "{" not in sh_ else ["-d", "-", "-f", sh_, "-m"],
                         ["-l", sh_], ["-l", sh_, "-m"], ["-c", sh_], ["-b", sh_], ["-d", "-", "-f", sh_, "-m"], ["-e", "-", "-f", sh_]):
                 out.append(Case(ctx + (["--fallback-oob", "G"] if rng.random() < 0.5 else []), rng.choice([b"a-b-c\nd-e-f\ng\nh-i\n", b"a-b-c-d-e", b"l1\nl2\nl3\nl4\n"])))
+    # long values with multi-byte characters at every alignment, for every option that takes a value (what
+    # is echoed in a message or cut at a fixed width must not split a character), and values that look like options
+    for L in range(1, 24):
+        for ch in ("é", "€", "😁"):
+            v = "x" * L + ch * 6
+            for argv in (["-f", v], ["-f", "1:" + v], ["-c", v + ":"], ["-b", "{" + v + "}"], ["-l", v], ["-d", v, "-f", "1"], ["-f", "1", "-d", "-", "-r", v],
+                         ["-f", "1=" + v, "-d", "-"], ["-f", "1", "-t", v], ["-f", "1", "-M", v], ["-f", "1", "-e", v], ["--" + v], ["-f", "2", "--fallback-oob", v]):
+                if rng.random() < 0.34:
+                    out.append(Case(argv, b"a-b-c\n"))
     # regexes that are fine (or not) on their own but fragile once the program embeds them in a larger
     # pattern, compiles a variant of them, or repeats them: verbose-mode comments, flags, nesting close to
     # the parser's limit, counted repetitions close to the size limit, empty-matching patterns
@@ -875,12 +885,13 @@ def c12(rng, count, exhaustive_len=3):
     while k < n_sp:
         mode = rng.choice(modes)
         argv = [mode, rng.choice(["1", "2:", "-1", "1,2", "{1}x", "1=", "=x", "-", "1:2=a=b"])]
-        if rng.random() < 0.7: argv += ["-d", rng.choice(["-", "--", "=", "'", '"', "'-'", '"a"', "", "é", "a=b", "-d"])]
+        FLAGLIKE = ["-j", "--join", "--no-join", "--json", "-g", "-p", "-s", "-z", "-m", "-jz", "-r", "-f", "--", "-M", "-e"]
+        if rng.random() < 0.7: argv += ["-d", rng.choice(["-", "--", "=", "'", '"', "'-'", '"a"', "", "é", "a=b", "-d"] + FLAGLIKE)]
         for f in ["-g", "-p", "-s", "-z", "-m", "-j"]:
             if rng.random() < 0.25: argv.append(f)
-        if rng.random() < 0.3: argv += ["-r", rng.choice(["/", "-", "=", "'x'", ""])]
+        if rng.random() < 0.3: argv += ["-r", rng.choice(["/", "-", "=", "'x'", ""] + FLAGLIKE)]
         if rng.random() < 0.3: argv += ["-t", rng.choice(["l", "r", "b", "L", "x"])]
-        if rng.random() < 0.2: argv += ["--fallback-oob", rng.choice(["x", "-", "=y", "'q'", ""])]
+        if rng.random() < 0.2: argv += ["--fallback-oob", rng.choice(["x", "-", "=y", "'q'", ""] + FLAGLIKE)]
         if rng.random() < 0.2: argv += ["-M", rng.choice(["1", "'1'", "+1", "=1"])]
         out.append(Case(_respell(rng, argv), rng.choice(stdin_pool)))
         k += 1
@@ -984,6 +995,14 @@ def c19(rng, count, full=False):
         if variant and variant.get("bounds") and mode:
             argv[1] = variant["bounds"]
         return argv
+    # option values that look like options, in different places of the argument vector ("the decision depends only on
+    # the set of options given, not on their order": a value is not an option wherever it stands)
+    for v in ["-j", "--join", "--no-join", "--json", "-g", "-p", "-s", "-z", "-m", "-jz", "-e", "-M", "--", "-r"]:
+        for argv in (["-d", ",", "-f", "1,2", "-r", v], ["-r", v, "-d", ",", "-f", "1,2", "-s"], ["-s", "-d", ",", "-f", "1,2", "-r", v],
+                     ["-d", ",", "-f", "1,2", "-r=" + v], ["-M", "1", "-d", ",", "-f", "1,2", "-r=" + v], ["-M", "1", "-d", ",", "-f", "1,2", "-r", v],
+                     ["-d", v, "-f", "1,2"], ["-f", "1,2", "-d", v, "-j"], ["-d", ",", "-f", "1,9", "--fallback-oob", v], ["--fallback-oob=" + v, "-d", ",", "-f", "9"],
+                     ["-d", ",", "-f", "1,2", "-r", v, "-j"], ["-j", "-d", ",", "-f", "1,2", "-r", v], ["-e", v, "-f", "1,2", "-r", "x"]):
+            out.append(Case(argv, rng.choice([b"a,b,c\n", b"a-jb,c\nx\n"])))
     # -M eligibility: every bounds shape, alone and with one more option
     shapes = ["1,2", "2,1", "1,1", "1:2,2", "1:2,3", "1,:3", ":1,:2", ":2,3", "1:,2", "-1", "x{1}y", "{1}{2}", "2:3,3", "1,3:",
               "1:3,2", ":1,2", "1,2:2", "2,:2", "1,2,2", "1:1,1"]
